@@ -228,6 +228,17 @@ fn gen_c11(ch: &mut Chunker, r: &mut Rng, thorough: bool, scale: usize) {
             rec_words(ch, &s, sep);
         }
     }
+    // unusual but terminated OSC payloads (runs of ESC before the terminator) between words
+    for k in 0..5 {
+        let run = "\u{1b}".repeat(k);
+        for term in ["\u{1b}\\", "\u{7}"] {
+            for s in [format!("\u{1b}]0;t{}{}foo bar", run, term), format!("ab \u{1b}]8;;u{}{}cd ef", run, term), format!("x\u{1b}]{}{} y", run, term)] {
+                for &sep in seps {
+                    rec_words(ch, &s, sep);
+                }
+            }
+        }
+    }
     // plain prose: letters, spaces and ASCII punctuation (UAX #14 forbids a break before . , ; : even after spaces)
     for s in all_strings(&['a', ' ', '.', ',', ';', '\''], if thorough { 5 } else { 4 }) {
         for &sep in seps {
@@ -290,6 +301,10 @@ fn gen_c12(ch: &mut Chunker, r: &mut Rng, thorough: bool, scale: usize) {
         // input words that already carry a penalty (pieces of an earlier split)
         rec_split_pre(ch, &s, Splitter::Hyphen, Splitter::Every2);
         rec_split_pre(ch, &s, Splitter::None, Splitter::Every3);
+    }
+    // alphanumeric is not alphabetic: digits of other scripts, superscripts, fractions around hyphens
+    for s in all_strings(&['a', '-', '\u{ff16}', '\u{b2}', '('], 4) {
+        rec_split(ch, &s, Splitter::Hyphen);
     }
     for s in all_strings(&['a', '\u{4f60}', '\u{301}', '\u{1b}', '[', 'm'], n) {
         for lim in 0..4 {
